@@ -1547,6 +1547,13 @@ func (fx *FnExec) next(x *ssa.Next) error {
 			nk := fx.e.nleaves(tup.At(1).Type())
 			kv := Val{T: m.Key(), L: r.L[1 : 1+nk]}
 			vv := Val{T: m.Elem(), L: r.L[1+nk:]}
+			if b, isB := tup.At(1).Type().(*types.Basic); isB && b.Kind() == types.Invalid {
+				// the key is not used by the program (for _, v := range m): it still exists
+				kv = fx.freshVal(m.Key(), "nextkey")
+			}
+			if b, isB := tup.At(2).Type().(*types.Basic); isB && b.Kind() == types.Invalid {
+				vv = Val{T: m.Elem()}
+			}
 			if len(kv.L) == fx.e.nleaves(m.Key()) {
 				k := fx.mapKeyTerm(m.Key(), kv)
 				dom := fx.heapVar(&fx.cur, names[0], "")
